@@ -72,12 +72,19 @@ func (t *toyBlock) Decrypt(dst, src []byte) {
 // ---------------------------------------------------------------------------------------------
 
 type runner struct {
-	o    *hx.Out
-	g    *hx.Rng
-	tier string
+	o      *hx.Out
+	g      *hx.Rng
+	tier   string
+	perKnd map[string]int
 }
 
+// viol reports at most two violations per kind (hx keeps 20 in all), so that one broken helper
+// does not hide what the other oracles found.
 func (x *runner) viol(kind, detail string, replay ...string) {
+	x.o.Count("violation:" + kind)
+	if x.perKnd[kind]++; x.perKnd[kind] > 2 {
+		return
+	}
 	x.o.Violate(hx.Violation{Kind: kind, Detail: detail, Replay: replay})
 }
 
@@ -530,26 +537,29 @@ func (x *runner) aeadOracle() {
 	}
 }
 
-// concurrent callers of one BlockCrypt (the two mutexes guard the shared working buffers)
+// concurrent callers of one BlockCrypt instance, as a session has them: the transmit path
+// encrypts while the receive path decrypts (and a listener shares one instance among all its
+// sessions).  Even workers encrypt, odd workers decrypt, all on the same instance; every result
+// is compared with what a private instance computed sequentially.
 func (x *runner) concurrent() {
 	g := x.g
-	for _, rc := range ciphers()[:10] {
-		if x.tier != "thorough" && rc.name != "aes-128" && rc.name != "blowfish" {
-			continue
-		}
+	workers, per := 4, 200
+	if x.tier == "thorough" {
+		workers, per = 8, 600
+	}
+	for _, rc := range ciphers() {
 		key := g.Bytes(rc.klen)
 		c, _ := rc.mk(key)
 		seq, _ := rc.mk(key)
-		const workers, per = 4, 150
-		type job struct{ pt, want []byte }
+		type job struct{ pt, ct []byte }
 		jobs := make([][]job, workers)
 		if m := hx.Try(func() {
 			for w := range jobs {
 				for i := 0; i < per; i++ {
 					pt := g.Bytes(g.Intn(maxLen + 1))
-					want := make([]byte, len(pt))
-					seq.Encrypt(want, pt)
-					jobs[w] = append(jobs[w], job{pt, want})
+					ct := make([]byte, len(pt))
+					seq.Encrypt(ct, pt)
+					jobs[w] = append(jobs[w], job{pt, ct})
 				}
 			}
 		}); m != "" {
@@ -568,34 +578,38 @@ func (x *runner) concurrent() {
 					}
 				}()
 				for _, j := range jobs[w] {
-					b := append([]byte(nil), j.pt...)
-					c.Encrypt(b, b)
-					if !bytes.Equal(b, j.want) {
-						bad[w] = fmt.Sprintf("len %d: concurrent Encrypt differs from sequential", len(j.pt))
-						return
-					}
-					c.Decrypt(b, b)
-					if !bytes.Equal(b, j.pt) {
-						bad[w] = fmt.Sprintf("len %d: concurrent Decrypt(Encrypt(x)) != x", len(j.pt))
-						return
+					if w%2 == 0 {
+						b := append([]byte(nil), j.pt...)
+						c.Encrypt(b, b)
+						if !bytes.Equal(b, j.ct) {
+							bad[w] = fmt.Sprintf("Encrypt of a %d-byte packet while other goroutines use the same BlockCrypt differs from the sequential result at byte %d; plaintext=%s", len(j.pt), firstDiff(j.ct, b), hx.Hex(j.pt))
+							return
+						}
+					} else {
+						b := append([]byte(nil), j.ct...)
+						c.Decrypt(b, b)
+						if !bytes.Equal(b, j.pt) {
+							bad[w] = fmt.Sprintf("Decrypt of a %d-byte packet while other goroutines use the same BlockCrypt differs from the plaintext at byte %d; ciphertext=%s", len(j.pt), firstDiff(j.pt, b), hx.Hex(j.ct))
+							return
+						}
 					}
 				}
 			}(w)
 		}
 		done := make(chan struct{})
 		go func() { wg.Wait(); close(done) }()
+		rep := fmt.Sprintf("cipher=%s key=%s: %d goroutines (even: Encrypt, odd: Decrypt) x %d packets on ONE instance", rc.name, hx.Hex(key), workers, per)
 		select {
 		case <-done:
 		case <-time.After(60 * time.Second):
 			// a panic with the mutex held blocks every other caller for good
-			x.viol("concurrent-callers", rc.name+": concurrent callers did not finish within 60 s (panic with the mutex held?)",
-				fmt.Sprintf("cipher=%s key=%s %d goroutines x %d packets", rc.name, hx.Hex(key), workers, per))
+			x.viol("concurrent-callers-"+rc.name, rc.name+": concurrent callers did not finish within 60 s (panic with the mutex held?)", rep)
 			continue
 		}
 		x.o.CountN("oracle:concurrent:"+rc.name, workers*per)
 		for _, b := range bad {
 			if b != "" {
-				x.viol("concurrent-callers", rc.name+": "+b, fmt.Sprintf("cipher=%s key=%s %d goroutines x %d packets", rc.name, hx.Hex(key), workers, per))
+				x.viol("concurrent-callers-"+rc.name, rc.name+": "+b, rep)
 				break
 			}
 		}
@@ -604,7 +618,7 @@ func (x *runner) concurrent() {
 
 // Run is the component entry point.
 func Run(o *hx.Out, g *hx.Rng, tier string) {
-	x := &runner{o: o, g: g.Fork(), tier: tier}
+	x := &runner{o: o, g: g.Fork(), tier: tier, perKnd: map[string]int{}}
 	o.Res.Rule = "one case per (helper, block size, aliasing mode, length 0..1500) with fresh random key/contents; shells: per (cipher, direction, aliasing, length)"
 	rounds := 1
 	if tier == "thorough" {
